@@ -682,7 +682,7 @@ func streamURL(g *G) { // C10
 }
 
 var corsOrigins = [][]string{nil, {"https://a.example"}, {"https://a.example", "https://b.example"}, {"*"}, {"https://a.example", "*"}}
-var corsAllowH = [][]string{nil, {"Content-Type"}, {"Content-Type", "X-Token"}, {"*"}, {"x-lower"}}
+var corsAllowH = [][]string{nil, {"Content-Type"}, {"Content-Type", "X-Token"}, {"*"}, {"x-lower"}, {"Content-Type", "X-UID", "X-Ua"}, {"authorization", "X-Token", "Accept"}, {"X-b", "X-B1", "x-a", "X-C"}, {"Zeta", "alpha", "Beta", "gamma", "Delta"}}
 var corsExposed = [][]string{nil, {"X-A"}, {"X-A", "X-B"}}
 
 func streamCors(g *G) { // C11, C12
@@ -713,10 +713,26 @@ func streamCors(g *G) { // C11, C12
 				h = append(h, kv{"Origin", "HTTPS://A.example"})
 			}
 			if g.chance(0.6) {
-				h = append(h, kv{"Access-Control-Request-Method", g.pick([]string{"GET", "POST", "PUT", "DELETE", "get", "OPTIONS", "HEAD", ""})})
+				h = append(h, kv{"Access-Control-Request-Method", g.pick([]string{"GET", "POST", "PUT", "DELETE", "get", "OPTIONS", "HEAD", "", "E", "GET, HEAD", "LETE", ", ", "HEAD, OPTIONS", "T", "POST, PUT", "GET,POST"})})
 			}
-			if g.chance(0.5) {
-				h = append(h, kv{"Access-Control-Request-Headers", g.pick([]string{"Content-Type", "content-type", "X-Token, Content-Type", " x-token ,CONTENT-TYPE", "X-Other", "Content-Type,X-Other", "", " ", "a,,b", "X-Lower", "x-lower"})})
+			if g.chance(0.6) {
+				v := g.pick([]string{"Content-Type", "content-type", "X-Token, Content-Type", " x-token ,CONTENT-TYPE", "X-Other", "Content-Type,X-Other", "", " ", "a,,b", "X-Lower", "x-lower"})
+				if len(o.allowH) > 0 && g.chance(0.6) { // derived from the configuration: every configured name in some spelling
+					n := 1 + g.intn(len(o.allowH))
+					var items []string
+					for _, i := range g.r.Perm(len(o.allowH))[:n] {
+						name := o.allowH[i]
+						switch g.intn(3) {
+						case 0:
+							name = strings.ToLower(name)
+						case 1:
+							name = strings.ToUpper(name)
+						}
+						items = append(items, g.pick([]string{"", " "})+name)
+					}
+					v = strings.Join(items, ",")
+				}
+				h = append(h, kv{"Access-Control-Request-Headers", v})
 			}
 			m := g.pick([]string{"OPTIONS", "OPTIONS", "GET", "POST", "PUT", "DELETE", "HEAD", "", "TRACE"})
 			p := g.pick([]string{"/a", "/a", "/u/5", "/none", "*"})
@@ -741,10 +757,10 @@ func (g *G) matcherExpr(depth int, hostIDs []int) string {
 		return "any"
 	case 3:
 		vs := [][]string{{"v1"}, {"/v1", "v2/"}, {"v1", "v11"}, {"v11", "v1"}, {"/v2/"}}[g.intn(5)]
-		return "pv:" + encB(g.pick([]string{"", "version", "id"})) + ":" + encVersions(vs)
+		return "pv:" + encB(g.pick([]string{"", "version", "id", "ver"})) + ":" + encVersions(vs)
 	case 4:
 		vs := [][]string{{"1"}, {"1", "2"}, {"2.0"}}[g.intn(3)]
-		return "hv:" + encB(g.pick([]string{"", "ver"})) + ":" + encB(g.pick([]string{"", "version", "v"})) + ":" + encVersions(vs)
+		return "hv:" + encB(g.pick([]string{"", "ver", "version", "id"})) + ":" + encB(g.pick([]string{"", "version", "v"})) + ":" + encVersions(vs)
 	default:
 		n := 1 + g.intn(3)
 		parts := make([]string, n)
@@ -817,6 +833,21 @@ func streamGroup(g *G) { // C13
 		}
 		g.emit("group-names %d", gid)
 		g.groupRequests(gid, 25)
+		// matcher expressions on their own, entered with parameters that an inner member may overwrite
+		for i := 0; i < 12; i++ {
+			var h []kv
+			accept := "%!"
+			if g.chance(0.7) {
+				a := g.pick(acceptValues)
+				h = append(h, kv{"Accept", a})
+				if _, ps, err := mime.ParseMediaType(a); err == nil {
+					accept = encMap(ps)
+				}
+			}
+			p := g.pick([]string{"/a", "/v1/a", "/v2/a", "/v11/a", "/v1/path", "/u/5", "/none"})
+			ps := g.pick([]string{"%-", "version=old", "ver=9,id=7", "version=2", "sub=x"})
+			g.emit("match %s GET %s %s %s %s %s", g.matcherExpr(3, hostIDs), encB(p), encB(g.pick(hostNames)), encKVs(h), accept, ps)
+		}
 		g.emit("group-remove %d %s", gid, encB(g.pick(names)))
 		g.emit("group-names %d", gid)
 		g.groupRequests(gid, 10)
@@ -929,7 +960,8 @@ func streamFault(g *G) { // C16
 		g.emit("group %d %s 0 %%_ %%- 0 %%- %%- %%- 0 0", gid, b2s(g.chance(0.6)))
 		g.emit("group-new %d %d %s pv:%%_:v1", gid, rid+1, encB("gn"))
 		g.emit("handle %d /a 3 4 %s", rid+1, encL([]string{"GET"}))
-		g.emit("group-add %d %d hosts:999", gid, rid)
+		g.emit("hosts %d %s", 900+gid, encL([]string{"only.example.org"}))
+		g.emit("group-add %d %d hosts:%d", gid, rid, 900+gid)
 		g.emit("group-use %d 5", gid)
 		for i := 0; i < 14; i++ {
 			hs, ms, bs := map[int]int{}, map[int]int{}, map[int]int{}
@@ -948,7 +980,7 @@ func streamFault(g *G) { // C16
 				if g.chance(0.5) {
 					g.serveLine("serve", rid, m, p, "", nil)
 				} else {
-					g.serveLine("gserve", gid, m, p, "", nil)
+					g.serveLine("gserve", gid, m, p, g.pick([]string{"", "only.example.org", "other.example.org"}), nil)
 				}
 			}
 		}
@@ -1036,10 +1068,34 @@ func streamTrace(g *G) { // C18
 			g.emit("use %d 4", rid)
 		}
 		g.emit("routes %d", rid)
-		for _, p := range []string{"/a", "/t", "/tt", "/none", "*", "", "/a/b", "\xff"} {
-			g.serveLine("serve", rid, "TRACE", p, "", nil)
-			g.serveLine("serve", rid, "OPTIONS", p, "", nil)
-			g.serveLine("serve", rid, "PUT", p, "", nil)
+		probeTrace := func() {
+			for _, p := range []string{"/a", "/t", "/tt", "/none", "*", "", "/a/b", "\xff"} {
+				g.serveLine("serve", rid, "TRACE", p, "", nil)
+				g.serveLine("serve", rid, "OPTIONS", p, "", nil)
+				g.serveLine("serve", rid, "PUT", p, "", nil)
+			}
+		}
+		probeTrace()
+		// histories that shrink or empty the table
+		switch g.intn(5) {
+		case 0:
+			g.emit("clean %d %%_", rid)
+		case 1:
+			for _, p := range []string{"/a", "/t", "/tt"} {
+				g.emit("remove %d %s %%-", rid, p)
+			}
+		case 2:
+			g.emit("remove %d /a GET", rid)
+			g.emit("clean %d /t", rid)
+		case 3:
+			g.emit("remove %d /tt POST", rid)
+		}
+		g.emit("routes %d", rid)
+		probeTrace()
+		if g.chance(0.5) {
+			g.emit("handle %d /z 9 %%- %s", rid, encL([]string{"DELETE"}))
+			g.emit("routes %d", rid)
+			probeTrace()
 		}
 		// the bundled helper
 		for i := 0; i < 6; i++ {
@@ -1073,7 +1129,8 @@ func streamFacade(g *G) { // C19: the same program through façades (router A) a
 		type fac struct {
 			id       int
 			pattern  string
-			ms       []int
+			ms       []int // effective list (own ++ parents')
+			own      []int // the list given at creation
 			resource bool
 		}
 		var facs []fac
@@ -1089,10 +1146,16 @@ func streamFacade(g *G) { // C19: the same program through façades (router A) a
 			case k < 3 || len(facs) == 0:
 				pat := g.pick([]string{"/p", "/p/", "/q", "", "/users/{uid}", "/a", "/p/{id", "/x{"})
 				ms := g.mwList()
+				if len(ms) == 0 && g.chance(0.6) {
+					ms = []int{1 + g.intn(9), 1 + g.intn(9)}
+				}
+				if len(facs) > 0 && g.chance(0.5) { // the same middleware list given to several façades (shared backing array)
+					ms = facs[g.intn(len(facs))].own
+				}
 				res := g.chance(0.3)
-				f := fac{id: nextF, pattern: pat, ms: ms, resource: res}
+				f := fac{id: nextF, pattern: pat, ms: ms, own: ms, resource: res}
 				parent := "-"
-				if len(facs) > 0 && g.chance(0.5) {
+				if len(facs) > 0 && g.chance(0.7) {
 					var prefixes []fac
 					for _, pf := range facs {
 						if !pf.resource {
@@ -1220,6 +1283,18 @@ func streamIsolation(g *G) { // C07: decoys interleaved with an observed instanc
 	// ids >= 1000 are decoys; bin/check runs the stream twice (with and without the decoy lines)
 	rid := 1
 	for !g.full() {
+		// distinct Hosts matchers: what one registers must not change how another parses or matches
+		ha, hb := 2000+2*rid, 2001+2*rid
+		g.emit("hosts %d %s", ha, encL([]string{"example.com"}))
+		g.emit("hosts-icpt %d %s 2", ha, encB("[0-9]+"))
+		g.emit("hosts-add %d %s", ha, encB("{id:[0-9]+}.a.example.com"))
+		g.emit("hosts %d %s", hb, encL([]string{"{id:[0-9]+}.b.example.com"}))
+		g.emit("hosts-icpt %d %s 1", hb, encB("[0-9]+"))
+		g.emit("hosts-add %d %s", hb, encB("{n:[0-9]+}.c.example.com"))
+		for _, h := range []string{"abc.a.example.com", "12.a.example.com", "abc.b.example.com", "12.b.example.com", "x1.c.example.com", "7.c.example.com"} {
+			g.emit("hosts-match %d %s", ha, encB(h))
+			g.emit("hosts-match %d %s", hb, encB(h))
+		}
 		g.routerLine(rid, routerOpt{name: "obs", trace: g.chance(0.5)})
 		g.serveLine("serve", rid, "OPTIONS", "*", "", nil)
 		for s := 0; s < 10; s++ {
